@@ -378,6 +378,9 @@ func runRun(m map[string]string) string {
 	if d := time.Since(t0); d > slowRun && !strings.HasPrefix(obs, "res=hang") && !strings.HasPrefix(obs, "res=panic") {
 		return fmt.Sprintf("INCONCLUSIVE machine too busy: the run took %d s", int(d.Seconds()))
 	}
+	if m["schedx"] != "" && strings.HasPrefix(obs, "res=") {
+		obs += " seq=" + m["_seq"]
+	}
 	return obs
 }
 
@@ -416,7 +419,12 @@ func runRun1(m map[string]string) string {
 		target, x, cleanup := r4Target(m, target)
 		defer cleanup()
 		conf := shot.PoolYAML("uri", f, fmt.Sprintf(", passes: %d", passes), httpGunYAML(gun, target, m), passes*len(reqs)+inst, inst)
-		return fmtRun(runEngineX(r4Conf(m, conf, &x), 60*time.Second, debug, x))
+		conf = r4Conf(m, conf, &x)
+		res := runEngineX(conf, 60*time.Second, debug, x)
+		if x.ts != nil {
+			m["_seq"] = x.ts.Seq() // appended to the observation by runRun
+		}
+		return fmtRun(res)
 	case "http/scenario", "http2/scenario":
 		var steps []c19Step
 		for i, r := range strings.Split(m["steps"], ";") {
@@ -616,6 +624,8 @@ func run(input string) string {
 		return runIdx(m)
 	case "iter", "dnsc":
 		return runViaChild(input)
+	case "wait":
+		return runWait(m)
 	case "run":
 		// in a child process (child.go): a crash of the whole process is an observation of THIS case
 		return runViaChild(input)
@@ -1241,6 +1251,8 @@ func gen(r *rand.Rand, tier string) []string {
 	// 9. round 4 (round4.go): the code the guns DEPEND on — host-name targets (DNS-caching dialer), the real phout
 	// aggregator with pooled samples, every PAIR of gun settings, library defaults, timed schedules with discard_overflow
 	out = append(out, genRound4(r, thorough, gridScripts, ccOf)...)
+	// 10. round 6 (round6.go): what the waiter remembers of a late token must not decide the fate of the tokens after it
+	out = append(out, genRound6(r, thorough)...)
 	return out
 }
 
@@ -1252,6 +1264,36 @@ func class(input, obs string) string {
 	}
 	if m["k"] == "dnsc" {
 		return "dnsc:dns-caching-dialer-concurrent:g" + m["g"]
+	}
+	if m["k"] == "wait" {
+		// which kinds of token follow an OVERDUE one
+		c += ":waiter"
+		prev := ""
+		seen := map[string]bool{}
+		for _, op := range strings.Split(m["ops"], ",") {
+			kind := ""
+			switch {
+			case strings.HasPrefix(op, "t-") && atoi(op[1:], 0) <= -2000:
+				kind = "overdue"
+			case strings.HasPrefix(op, "t-") || op == "t0":
+				kind = "late"
+			case strings.HasPrefix(op, "t"):
+				kind = "future"
+			case op == "e" || op == "c":
+				kind = op
+			default:
+				continue
+			}
+			if prev == "overdue" && !seen[kind] {
+				seen[kind] = true
+				c += ":overdue-then-" + kind
+			}
+			prev = kind
+		}
+		return c
+	}
+	if m["k"] == "run" && m["schedx"] != "" {
+		return "run:" + m["gun"] + ":composite-schedule:slow-answer-then-gap"
 	}
 	if m["k"] == "run" {
 		c += ":" + m["gun"] + ":" + m["tgt"]
